@@ -229,6 +229,11 @@ Proof.
 Qed.
 
 Ltac rel_fin :=
+  repeat match goal with
+         | H : stepf _ _ = _ |- _ => clear H
+         | H : Inv _ |- _ => clear H
+         | H : hstep _ _ _ = _ |- _ => clear H
+         end;
   cbn in *; intros;
   try (match goal with E : pc _ = _ |- _ => rewrite ?E in *; cbn in * end);
   try reflexivity; try assumption; try discriminate; try congruence; auto;
@@ -248,7 +253,7 @@ Proof.
   assert (Hseen := R_seen _ _ HR).
   destruct l.
   - (* TSvChk *) cbn in Hs. destruct (sv g); try discriminate. inversion Hs; subst; clear Hs.
-    eapply (R_glob g s); try reflexivity; eauto; try apply HR.
+    eapply (R_glob g s); try reflexivity; try eassumption; auto; try apply HR.
   - (* Acc *) cbn in Hs. destruct (sv g); try discriminate.
     destruct (lopen g && Nat.eqb i (length (conns g)))%bool eqn:E; [|discriminate].
     apply andb_true_iff in E as [_ E]. apply Nat.eqb_eq in E. inversion Hs; subst; clear Hs.
@@ -271,45 +276,45 @@ Proof.
     + intros Hcl j cj Hin Hj. unfold getc in Hj. cbn in Hj. apply nth_app_new in Hj. destruct Hj as [Hj|[-> ->]].
       * eapply R_cl0; eauto.
       * specialize (R_at_cl0 _ Hin). apply getp_addr_lt in R_at_cl0. lia.
-  - (* LClose *) cbn in Hs. inversion Hs; subst; clear Hs. eapply (R_glob g s); try reflexivity; eauto; try apply HR.
+  - (* LClose *) cbn in Hs. inversion Hs; subst; clear Hs. eapply (R_glob g s); try reflexivity; try eassumption; auto; try apply HR.
   - (* TSvErr *) cbn in Hs. destruct (sv g); try discriminate. destruct (lopen g); try discriminate.
-    inversion Hs; subst; clear Hs. eapply (R_glob g s); try reflexivity; eauto; try apply HR.
+    inversion Hs; subst; clear Hs. eapply (R_glob g s); try reflexivity; try eassumption; auto; try apply HR.
   - (* SrvRet *) cbn in Hs. destruct (sv g); try discriminate.
-    inversion Hs; subst; clear Hs. eapply (R_glob g s); try reflexivity; eauto; try apply HR.
+    inversion Hs; subst; clear Hs. eapply (R_glob g s); try reflexivity; try eassumption; auto; try apply HR.
   - (* TRegister *) cbn in Hs. destruct (getc g i) as [c|] eqn:Hc; [|discriminate]. destruct (mu g); [discriminate|].
     destruct (pc c) eqn:Ep; try discriminate. inversion Hs; subst; clear Hs. facts HR Hc.
-    eapply (R_upd g s _ s i c (set_pc c CReg)); try reflexivity; eauto.
+    eapply (R_upd g s _ s i c (set_pc c CReg)); try reflexivity; try eassumption; auto.
     constructor; rewrite ?Ep in *; rel_fin.
   - (* Addr *) destruct (hstep_of _ _ _ i Hs (or_introl eq_refl)) as (c & c' & Hc & Hh & ->). facts HR Hc. pose proof Hh as Hh0.
     assert (Hlt := R_getp_lt _ _ _ _ HR Hc).
     unfold hstep in Hh. destruct (pc c) eqn:Ep; try discriminate. inversion Hh; subst; clear Hh.
-    cbn [pstep]. eapply (R_hstep g s _ i c _ _ _ HR Hc eq_refl Hh0); try reflexivity; eauto.
+    cbn [pstep]. eapply (R_hstep g s _ i c _ _ _ HR Hc eq_refl Hh0); try reflexivity; try eassumption; auto.
     + cbn. apply upd_length.
     + intros j Hj. apply getp_setp_other. congruence.
     + rewrite getp_setp_same by assumption. constructor; rewrite ?Ep in *; rel_fin.
     + rewrite getp_setp_same by assumption. reflexivity.
   - (* TlsConn *) destruct (hstep_of _ _ _ i Hs (or_introl eq_refl)) as (c & c' & Hc & Hh & ->). facts HR Hc. pose proof Hh as Hh0.
     cbn [pstep]. cbn in Hh. destruct (before_check (pc c)); [|discriminate]. inversion Hh; subst; clear Hh.
-    eapply (R_hstep g s _ i c _ _ _ HR Hc eq_refl Hh0); try reflexivity; eauto.
+    eapply (R_hstep g s _ i c _ _ _ HR Hc eq_refl Hh0); try reflexivity; try eassumption; auto.
     + constructor; rel_fin.
   - (* TChkConn *) destruct (hstep_of _ _ _ i Hs (or_introl eq_refl)) as (c & c' & Hc & Hh & ->). facts HR Hc. pose proof Hh as Hh0.
     cbn [pstep]. unfold hstep in Hh. destruct (pc c) eqn:Ep; try discriminate.
     destruct (closing g) eqn:Ecl; inversion Hh; subst; clear Hh;
-      (eapply (R_hstep g s _ i c _ _ _ HR Hc Ecl Hh0); try reflexivity; eauto; constructor; rewrite ?Ep in *; rel_fin).
+      (eapply (R_hstep g s _ i c _ _ _ HR Hc Ecl Hh0); try reflexivity; try eassumption; auto; constructor; rewrite ?Ep in *; rel_fin).
   - (* HsDone *) destruct (hstep_of _ _ _ i Hs (or_introl eq_refl)) as (c & c' & Hc & Hh & ->). facts HR Hc. pose proof Hh as Hh0.
     cbn [pstep]. unfold hstep in Hh. destruct (pc c) eqn:Ep; try discriminate.
     destruct (hs c); inversion Hh; subst; clear Hh.
-    eapply (R_hstep g s _ i c _ _ _ HR Hc eq_refl Hh0); try reflexivity; eauto; constructor; rewrite ?Ep in *; rel_fin.
+    eapply (R_hstep g s _ i c _ _ _ HR Hc eq_refl Hh0); try reflexivity; try eassumption; auto; constructor; rewrite ?Ep in *; rel_fin.
   - (* THsFail *) destruct (hstep_of _ _ _ i Hs (or_introl eq_refl)) as (c & c' & Hc & Hh & ->). facts HR Hc. pose proof Hh as Hh0.
     cbn [pstep]. unfold hstep in Hh. destruct (pc c) eqn:Ep; try discriminate.
     destruct (hs c); inversion Hh; subst; clear Hh.
-    eapply (R_hstep g s _ i c _ _ _ HR Hc eq_refl Hh0); try reflexivity; eauto; constructor; rewrite ?Ep in *; rel_fin.
+    eapply (R_hstep g s _ i c _ _ _ HR Hc eq_refl Hh0); try reflexivity; try eassumption; auto; constructor; rewrite ?Ep in *; rel_fin.
   - (* FirstByte *) destruct (hstep_of _ _ _ i Hs (or_introl eq_refl)) as (c & c' & Hc & Hh & ->). facts HR Hc. pose proof Hh as Hh0.
     assert (Hlt := R_getp_lt _ _ _ _ HR Hc).
     cbn [pstep]. unfold hstep in Hh. destruct (pc c) eqn:Ep; try discriminate.
     destruct (hs c); inversion Hh; subst; clear Hh.
     flag_off. { rewrite ?Ep in *. specialize (F6 Eflag). discriminate. }
-    eapply (R_hstep g s _ i c _ _ _ HR Hc eq_refl Hh0); try reflexivity; eauto.
+    eapply (R_hstep g s _ i c _ _ _ HR Hc eq_refl Hh0); try reflexivity; try eassumption; auto.
     + cbn. apply upd_length.
     + intros j Hj. apply getp_setp_other. congruence.
     + rewrite getp_setp_same by assumption. constructor; rewrite ?Ep in *; rel_fin.
@@ -319,20 +324,20 @@ Proof.
     unfold hstep in Hh. destruct k.
     + (* RErr *) cbn [pstep]. destruct (pc c) eqn:Ep; try discriminate.
       * destruct (hs c); inversion Hh; subst; clear Hh.
-        eapply (R_hstep g s _ i c _ _ _ HR Hc eq_refl Hh0); try reflexivity; eauto; constructor; rewrite ?Ep in *; rel_fin.
+        eapply (R_hstep g s _ i c _ _ _ HR Hc eq_refl Hh0); try reflexivity; try eassumption; auto; constructor; rewrite ?Ep in *; rel_fin.
       * inversion Hh; subst; clear Hh.
-        eapply (R_hstep g s _ i c _ _ _ HR Hc eq_refl Hh0); try reflexivity; eauto; constructor; rewrite ?Ep in *; rel_fin.
+        eapply (R_hstep g s _ i c _ _ _ HR Hc eq_refl Hh0); try reflexivity; try eassumption; auto; constructor; rewrite ?Ep in *; rel_fin.
     + (* ROk *) cbn [pstep]. destruct (pc c) eqn:Ep; try discriminate. inversion Hh; subst; clear Hh.
       flag_off.
       { specialize (F2 Eflag). destruct (K4 F2) as [_ Q]. specialize (K5 Q). discriminate. }
       { rewrite ?Ep in *. specialize (F6 Eflag0). discriminate. }
-      eapply (R_hstep g s _ i c _ _ _ HR Hc eq_refl Hh0); try reflexivity; eauto. constructor; rewrite ?Ep in *; rel_fin.
+      eapply (R_hstep g s _ i c _ _ _ HR Hc eq_refl Hh0); try reflexivity; try eassumption; auto. constructor; rewrite ?Ep in *; rel_fin.
       destruct (p_connect (getp s i)); [exfalso; specialize (F8 eq_refl); discriminate|reflexivity].
     + (* RConnect *) cbn [pstep]. destruct (pc c) eqn:Ep; try discriminate. inversion Hh; subst; clear Hh.
       flag_off.
       { specialize (F2 Eflag). destruct (K4 F2) as [_ Q]. specialize (K5 Q). discriminate. }
       { rewrite ?Ep in *. specialize (F6 Eflag0). discriminate. }
-      eapply (R_hstep g s _ i c _ _ _ HR Hc eq_refl Hh0); try reflexivity; eauto.
+      eapply (R_hstep g s _ i c _ _ _ HR Hc eq_refl Hh0); try reflexivity; try eassumption; auto.
       * cbn. apply upd_length.
       * intros j Hj. apply getp_setp_other. congruence.
       * rewrite getp_setp_same by assumption. constructor; rewrite ?Ep in *; rel_fin.
@@ -340,7 +345,7 @@ Proof.
   - (* TChkReq *) destruct (hstep_of _ _ _ i Hs (or_introl eq_refl)) as (c & c' & Hc & Hh & ->). facts HR Hc. pose proof Hh as Hh0.
     cbn [pstep]. unfold hstep in Hh. destruct (pc c) eqn:Ep; try discriminate.
     destruct (closing g) eqn:Ecl; inversion Hh; subst; clear Hh;
-      (eapply (R_hstep g s _ i c _ _ _ HR Hc Ecl Hh0); try reflexivity; eauto; constructor; rewrite ?Ep in *; rel_fin).
+      (eapply (R_hstep g s _ i c _ _ _ HR Hc Ecl Hh0); try reflexivity; try eassumption; auto; constructor; rewrite ?Ep in *; rel_fin).
   - (* Fwd *) destruct (hstep_of _ _ _ i Hs (or_introl eq_refl)) as (c & c' & Hc & Hh & ->). facts HR Hc. pose proof Hh as Hh0.
     assert (Hlt := R_getp_lt _ _ _ _ HR Hc).
     cbn [pstep]. unfold hstep in Hh. destruct (pc c) eqn:Ep; try discriminate.
@@ -348,7 +353,7 @@ Proof.
     flag_off.
     { specialize (F1 Eflag). specialize (K2 eq_refl). congruence. }
     { specialize (F2 Eflag0). destruct (K4 F2) as [_ Q]. specialize (K5 Q). discriminate. }
-    eapply (R_hstep g s _ i c _ _ _ HR Hc eq_refl Hh0); try reflexivity; eauto.
+    eapply (R_hstep g s _ i c _ _ _ HR Hc eq_refl Hh0); try reflexivity; try eassumption; auto.
     + cbn. apply upd_length.
     + intros j Hj. apply getp_setp_other. congruence.
     + rewrite getp_setp_same by assumption. constructor; rel_fin.
@@ -357,7 +362,7 @@ Proof.
     assert (Hlt := R_getp_lt _ _ _ _ HR Hc).
     cbn [pstep]. unfold hstep in Hh. destruct (pc c) eqn:Ep; try discriminate.
     inversion Hh; subst; clear Hh. rewrite ?Ep in *.
-    eapply (R_hstep g s _ i c _ _ _ HR Hc eq_refl Hh0); try reflexivity; eauto.
+    eapply (R_hstep g s _ i c _ _ _ HR Hc eq_refl Hh0); try reflexivity; try eassumption; auto.
     + cbn. apply upd_length.
     + intros j Hj. apply getp_setp_other. congruence.
     + rewrite getp_setp_same by assumption. constructor; rel_fin.
@@ -366,7 +371,7 @@ Proof.
     assert (Hlt := R_getp_lt _ _ _ _ HR Hc).
     cbn [pstep]. unfold hstep in Hh. destruct (pc c) eqn:Ep; try discriminate.
     inversion Hh; subst; clear Hh. rewrite ?Ep in *.
-    eapply (R_hstep g s _ i c _ _ _ HR Hc eq_refl Hh0); try reflexivity; eauto.
+    eapply (R_hstep g s _ i c _ _ _ HR Hc eq_refl Hh0); try reflexivity; try eassumption; auto.
     + cbn. apply upd_length.
     + intros j Hj. apply getp_setp_other. congruence.
     + rewrite getp_setp_same by assumption. constructor; rel_fin.
@@ -374,12 +379,12 @@ Proof.
   - (* TDecide *) destruct (hstep_of _ _ _ i Hs (or_introl eq_refl)) as (c & c' & Hc & Hh & ->). facts HR Hc. pose proof Hh as Hh0.
     cbn [pstep]. unfold hstep in Hh. destruct (pc c) eqn:Ep; try discriminate.
     inversion Hh; subst; clear Hh. rewrite ?Ep in *.
-    eapply (R_hstep g s _ i c _ _ _ HR Hc eq_refl Hh0); try reflexivity; eauto. constructor; rel_fin.
+    eapply (R_hstep g s _ i c _ _ _ HR Hc eq_refl Hh0); try reflexivity; try eassumption; auto. constructor; rel_fin.
   - (* WrCall *) destruct (hstep_of _ _ _ i Hs (or_introl eq_refl)) as (c & c' & Hc & Hh & ->). facts HR Hc. pose proof Hh as Hh0.
     cbn [pstep]. unfold hstep in Hh. destruct (pc c) eqn:Ep; try discriminate.
     inversion Hh; subst; clear Hh. rewrite ?Ep in *.
     flag_off. { specialize (F2 Eflag). destruct (K4 F2) as [_ Q]. specialize (K5 Q). discriminate. }
-    eapply (R_hstep g s _ i c _ _ _ HR Hc eq_refl Hh0); try reflexivity; eauto. constructor; rel_fin.
+    eapply (R_hstep g s _ i c _ _ _ HR Hc eq_refl Hh0); try reflexivity; try eassumption; auto. constructor; rel_fin.
   - (* Wrote *) destruct (hstep_of _ _ _ i Hs (or_introl eq_refl)) as (c & c' & Hc & Hh & ->). facts HR Hc. pose proof Hh as Hh0.
     assert (Hlt := R_getp_lt _ _ _ _ HR Hc).
     cbn [pstep]. unfold hstep in Hh. destruct (pc c) eqn:Ep; try discriminate; rewrite ?Ep in *.
@@ -392,7 +397,7 @@ Proof.
       { rewrite !andb_false_r in Eflag0. discriminate. }
       { apply orb_true_iff in Eg3 as [Q|Q]; [rewrite (F4 Q) in Eflag1|rewrite (F5 Q) in Eflag1];
           cbn in Eflag1; rewrite ?andb_false_r in Eflag1; discriminate. }
-      eapply (R_hstep g s _ i c _ _ _ HR Hc eq_refl Hh0); try reflexivity; eauto.
+      eapply (R_hstep g s _ i c _ _ _ HR Hc eq_refl Hh0); try reflexivity; try eassumption; auto.
       * cbn. apply upd_length.
       * intros j Hj. apply getp_setp_other. congruence.
       * rewrite getp_setp_same by assumption. constructor; rel_fin.
@@ -410,7 +415,7 @@ Proof.
           apply andb_true_iff in Eflag1 as [-> Egn].
           destruct close, b; cbn in Eg; try discriminate;
             (apply orb_true_iff in Eg as [Q|Q]; [rewrite (F4 Q) in Ecl|rewrite (F5 Q) in Egn]; discriminate). }
-        eapply (R_hstep g s _ i c _ _ _ HR Hc eq_refl Hh0); try reflexivity; eauto.
+        eapply (R_hstep g s _ i c _ _ _ HR Hc eq_refl Hh0); try reflexivity; try eassumption; auto.
         -- cbn. apply upd_length.
         -- intros j Hj. apply getp_setp_other. congruence.
         -- rewrite getp_setp_same by assumption. constructor; rel_fin.
@@ -424,7 +429,7 @@ Proof.
         { apply andb_true_iff in Eflag1 as [Eflag1 Ecl]. apply andb_true_iff in Eflag1 as [Eflag1 Ecc].
           apply andb_true_iff in Eflag1 as [-> Egn]. cbn in Eg.
           apply orb_true_iff in Eg as [Q|Q]; [rewrite (F4 Q) in Ecl|rewrite (F5 Q) in Egn]; discriminate. }
-        eapply (R_hstep g s _ i c _ _ _ HR Hc eq_refl Hh0); try reflexivity; eauto.
+        eapply (R_hstep g s _ i c _ _ _ HR Hc eq_refl Hh0); try reflexivity; try eassumption; auto.
         -- cbn. apply upd_length.
         -- intros j Hj. apply getp_setp_other. congruence.
         -- rewrite getp_setp_same by assumption.
@@ -434,12 +439,12 @@ Proof.
   - (* TConnRefuse *) destruct (hstep_of _ _ _ i Hs (or_introl eq_refl)) as (c & c' & Hc & Hh & ->). facts HR Hc. pose proof Hh as Hh0.
     cbn [pstep]. unfold hstep in Hh. destruct (pc c) eqn:Ep; try discriminate.
     destruct b; try discriminate. destruct (is_connect c) eqn:Eic; inversion Hh; subst; clear Hh. rewrite ?Ep in *.
-    eapply (R_hstep g s _ i c _ _ _ HR Hc eq_refl Hh0); try reflexivity; eauto. constructor; rel_fin.
+    eapply (R_hstep g s _ i c _ _ _ HR Hc eq_refl Hh0); try reflexivity; try eassumption; auto. constructor; rel_fin.
   - (* SockClose *) destruct (hstep_of _ _ _ i Hs (or_intror eq_refl)) as (c & c' & Hc & Hh & ->). facts HR Hc. pose proof Hh as Hh0.
     assert (Hlt := R_getp_lt _ _ _ _ HR Hc).
     cbn [pstep]. unfold hstep in Hh. destruct (pc c) eqn:Ep; try discriminate.
     inversion Hh; subst; clear Hh. rewrite ?Ep in *.
-    eapply (R_hstep g s _ i c _ _ _ HR Hc eq_refl Hh0); try reflexivity; eauto.
+    eapply (R_hstep g s _ i c _ _ _ HR Hc eq_refl Hh0); try reflexivity; try eassumption; auto.
     + cbn. apply upd_length.
     + intros j Hj. apply getp_setp_other. congruence.
     + rewrite getp_setp_same by assumption. constructor; rel_fin.
@@ -448,7 +453,7 @@ Proof.
     destruct (cl g) as [| |todo| |] eqn:Ecl; try discriminate.
     destruct (mem_nat i todo || mem_nat i (regs g))%bool; [|discriminate]. inversion Hs; subst; clear Hs. facts HR Hc.
     assert (Hlt := R_getp_lt _ _ _ _ HR Hc).
-    cbn [pstep]. eapply (R_upd g s _ _ i c (mark_closed c)); try reflexivity; eauto.
+    cbn [pstep]. eapply (R_upd g s _ _ i c (mark_closed c)); try reflexivity; try eassumption; auto.
     + cbn. discriminate.
     + cbn. apply upd_length.
     + intros j Hj. apply getp_setp_other. congruence.
@@ -457,34 +462,34 @@ Proof.
   - (* TSilentClose *) destruct (hstep_of _ _ _ i Hs (or_introl eq_refl)) as (c & c' & Hc & Hh & ->). facts HR Hc. pose proof Hh as Hh0.
     cbn [pstep]. unfold hstep in Hh. destruct (pc c) eqn:Ep; try discriminate.
     destruct (sock_closed c); inversion Hh; subst; clear Hh. rewrite ?Ep in *.
-    eapply (R_hstep g s _ i c _ _ _ HR Hc eq_refl Hh0); try reflexivity; eauto. constructor; rel_fin.
+    eapply (R_hstep g s _ i c _ _ _ HR Hc eq_refl Hh0); try reflexivity; try eassumption; auto. constructor; rel_fin.
   - (* TDec *) cbn in Hs. destruct (getc g i) as [c|] eqn:Hc; [|discriminate].
     destruct (pc c) eqn:Ep; try discriminate. inversion Hs; subst; clear Hs. facts HR Hc.
-    eapply (R_upd g s _ s i c (set_pc c CDec)); try reflexivity; eauto.
+    eapply (R_upd g s _ s i c (set_pc c CDec)); try reflexivity; try eassumption; auto.
     constructor; rewrite ?Ep in *; rel_fin.
   - (* TDelete *) cbn in Hs. destruct (getc g i) as [c|] eqn:Hc; [|discriminate]. destruct (mu g); [discriminate|].
     destruct (pc c) eqn:Ep; try discriminate. inversion Hs; subst; clear Hs. facts HR Hc.
-    eapply (R_upd g s _ s i c (set_pc c CDone)); try reflexivity; eauto.
+    eapply (R_upd g s _ s i c (set_pc c CDone)); try reflexivity; try eassumption; auto.
     constructor; rewrite ?Ep in *; rel_fin.
   - (* ClientGone *) destruct (hstep_of _ _ _ i Hs (or_introl eq_refl)) as (c & c' & Hc & Hh & ->). facts HR Hc. pose proof Hh as Hh0.
     assert (Hlt := R_getp_lt _ _ _ _ HR Hc).
     cbn [pstep]. cbn in Hh. inversion Hh; subst; clear Hh.
-    eapply (R_hstep g s _ i c _ _ _ HR Hc eq_refl Hh0); try reflexivity; eauto.
+    eapply (R_hstep g s _ i c _ _ _ HR Hc eq_refl Hh0); try reflexivity; try eassumption; auto.
     + cbn. apply upd_length.
     + intros j Hj. apply getp_setp_other. congruence.
     + rewrite getp_setp_same by assumption. constructor; rel_fin.
     + rewrite getp_setp_same by assumption. cbn. auto.
   - (* CtxExpire *) cbn in Hs. inversion Hs; subst; clear Hs. cbn [pstep].
-    eapply (R_glob g s); try reflexivity; eauto; try apply HR.
+    eapply (R_glob g s); try reflexivity; try eassumption; auto; try apply HR.
   - (* SdCall *) cbn in Hs. destruct (sd g) eqn:Esd; try discriminate. inversion Hs; subst; clear Hs. cbn [pstep].
-    eapply (R_glob g s); try reflexivity; eauto; try apply HR; cbn; try discriminate.
+    eapply (R_glob g s); try reflexivity; try eassumption; auto; try apply HR; cbn; try discriminate.
     intros i Hi. destruct (addr_ids_spec _ _ _ (pcn0 false) Hi) as [_ Q]. rewrite Nat.sub_0_r in Q. exact Q.
   - (* TSdLock *) cbn in Hs. destruct (sd g) eqn:Esd; try discriminate. destruct (mu g); try discriminate.
     inversion Hs; subst; clear Hs. cbn [pstep].
-    eapply (R_glob g s); try reflexivity; eauto; try apply HR; cbn; try discriminate.
+    eapply (R_glob g s); try reflexivity; try eassumption; auto; try apply HR; cbn; try discriminate.
   - (* TSdOut *) cbn in Hs. destruct (sd g) eqn:Esd; try discriminate.
     destruct (if ok then cnt g =? 0 else ctx_exp g) eqn:Eg; [|discriminate]. inversion Hs; subst; clear Hs. cbn [pstep].
-    eapply (R_glob g s); try reflexivity; eauto; try apply HR; cbn.
+    eapply (R_glob g s); try reflexivity; try eassumption; auto; try apply HR; cbn.
     + intros Hok i c Hi Hc. inversion Hok; subst ok. apply Z.eqb_eq in Eg. facts HR Hc.
       specialize (F3 (R_at_sd _ _ HR _ Hi)).
       assert (Hcnt : counted (pc c) = false).
@@ -496,22 +501,22 @@ Proof.
     inversion Hs; subst; clear Hs. cbn [pstep].
     destruct ok.
     + rewrite open_among_false.
-      * cbn [flag_if]. eapply (R_glob g s); try reflexivity; eauto; try apply HR; cbn; try discriminate.
+      * cbn [flag_if]. eapply (R_glob g s); try reflexivity; try eassumption; auto; try apply HR; cbn; try discriminate.
       * intros i Hi.
         assert (Hlt := getp_addr_lt _ _ (R_at_sd _ _ HR _ Hi)). rewrite (R_len _ _ HR) in Hlt.
         destruct (nth_error (conns g) i) as [c|] eqn:Hc; [|apply nth_error_None in Hc; lia].
         apply (r_closed _ _ _ (R_conn _ _ HR _ _ Hc)). eapply (R_sd _ _ HR); eauto.
     + rewrite (R_ctx _ _ HR (R_sderr _ _ HR Esd)). cbn [negb flag_if].
-      eapply (R_glob g s); try reflexivity; eauto; try apply HR; cbn; try discriminate.
+      eapply (R_glob g s); try reflexivity; try eassumption; auto; try apply HR; cbn; try discriminate.
   - (* ClCall *) cbn in Hs. destruct (cl g) eqn:Ecl; try discriminate. inversion Hs; subst; clear Hs. cbn [pstep].
-    eapply (R_glob g s); try reflexivity; eauto; try apply HR; cbn; try discriminate.
+    eapply (R_glob g s); try reflexivity; try eassumption; auto; try apply HR; cbn; try discriminate.
     intros i Hi. destruct (addr_ids_spec _ _ _ (pcn0 false) Hi) as [_ Q]. rewrite Nat.sub_0_r in Q. exact Q.
   - (* TClLock *) cbn in Hs. destruct (cl g) eqn:Ecl; try discriminate. destruct (mu g); try discriminate.
     inversion Hs; subst; clear Hs. cbn [pstep].
-    eapply (R_glob g s); try reflexivity; eauto; try apply HR; cbn; try discriminate.
+    eapply (R_glob g s); try reflexivity; try eassumption; auto; try apply HR; cbn; try discriminate.
   - (* TClOut *) cbn in Hs. destruct (cl g) as [| |todo| |] eqn:Ecl; try discriminate. destruct todo; [|discriminate].
     inversion Hs; subst; clear Hs. cbn [pstep].
-    eapply (R_glob g s); try reflexivity; eauto; try apply HR; cbn.
+    eapply (R_glob g s); try reflexivity; try eassumption; auto; try apply HR; cbn.
     + intros _ i c Hi Hc. facts HR Hc. specialize (F3 (R_at_cl _ _ HR _ Hi)).
       destruct (in_set (pc c)) eqn:Ein.
       * destruct (K7 _ Ecl eq_refl) as [Q|Q]; [discriminate|exact Q].
@@ -523,9 +528,9 @@ Proof.
       destruct (nth_error (conns g) i) as [c|] eqn:Hc; [|apply nth_error_None in Hc; lia].
       apply (r_closed _ _ _ (R_conn _ _ HR _ _ Hc)). eapply (R_cl _ _ HR); eauto. }
     rewrite Ho. cbn [flag_if].
-    eapply (R_glob g s); try reflexivity; eauto; try apply HR; cbn; try discriminate.
+    eapply (R_glob g s); try reflexivity; try eassumption; auto; try apply HR; cbn; try discriminate.
   - (* ClosingSeen *) cbn in Hs. destruct (closing g) eqn:Ecl; [|discriminate]. assert (g' = g) by congruence; subst g'; clear Hs. cbn [pstep].
-    eapply (R_glob g s); try reflexivity; eauto; try apply HR.
+    eapply (R_glob g s); try reflexivity; try eassumption; auto; try apply HR.
   - (* CntIs *) cbn in Hs. destruct (cnt g =? k) eqn:Ek; [|discriminate]. assert (g' = g) by congruence; subst g'; clear Hs. cbn [pstep].
     apply Z.eqb_eq in Ek.
     assert (Hk : (k <? 0) = false).
